@@ -255,6 +255,38 @@ func init() {
 			Bounds: "two candidates/validators with symbolic stakes, reward and fees symbolic, each validator present or absent in block 2; heights 1 and 2"})
 	}
 
+	// ---------------------------------------------------------- C25 map races between API reads and block execution
+	{
+		var q, all []map[string]int64
+		matched := map[int][]int{0: {0}, 1: {0}, 2: {1}, 3: {1}, 4: {2}, 5: {2}, 6: {3}, 7: {4}, 8: {0}, 9: {2}, 10: {1, 3, 4}}
+		for r := 0; r <= 10; r++ {
+			for _, w := range matched[r] {
+				for cold := 0; cold <= 1; cold++ {
+					q = append(q, cfg("read", r, "write", w, "cold", cold, "commit", 1))
+				}
+			}
+			for w := 0; w <= 4; w++ {
+				for cold := 0; cold <= 1; cold++ {
+					for commit := 0; commit <= 1; commit++ {
+						all = append(all, cfg("read", r, "write", w, "cold", cold, "commit", commit))
+					}
+				}
+			}
+		}
+		a25 := append([]string{
+			"map-race part of the property only: a Go map read or iterated by an API query while block execution writes it (the runtime aborts the process on that); the equality of responses and app hashes under load, races on memory other than maps, and crashes of other kinds are outside",
+			"trace-based: the query and the block-execution step are executed one after the other on the same state and their lock operations (sync.Mutex / sync.RWMutex by address) and map accesses (by map object) recorded; the interleaving is then symbolic: integer timestamps for every lock operation on a mutex both threads use and for the two accesses of a candidate pair, constrained by program order and by mutual exclusion of critical sections (two read sections may overlap); the assertion 'the two accesses cannot coincide' is decided by the SMT portfolio for every candidate pair (one representative per map, function, access kind and set of held locks)",
+			"an interleaving in which a thread would take a different branch than in its sequential run is outside the claim; synchronisation other than mutexes (channels, atomics, WaitGroups) is not modelled (none orders API goroutines against block execution); sync.Map is internally synchronised and not tracked",
+			"a predicted race is reported only after Go's race detector, run on the real code with the two threads in two goroutines, reports a race through a runtime map operation and both predicted functions",
+			"a prediction the race detector does not confirm within 16 runs (the block step arriving at 16 different phases of the repeated query) is listed as inconclusive in the evidence, not reported: the detector only sees a race if the observed run leaves the two accesses unordered",
+			"operations: 11 groups of CheckState queries (route search, pools, addresses, waitlist, candidates, stakes, coins, frozen funds/halts/app, export of pools, of candidates, of the other modules) against 5 groups of module mutations, each optionally followed by State.Commit, on warm or cold caches; balances, frozen funds, waitlist amounts symbolic",
+		}, commonAssumptions...)
+		add("C25", a25, HSpec{Pkg: "coreV2/state", Func: "VerifHarness_C25_MapRaces", Tier: "quick", Configs: q,
+			Bounds: "two threads, one query group against its matching mutation group (export against all) followed by Commit; every interleaving of the two recorded traces that the locks allow"})
+		add("C25", a25, HSpec{Pkg: "coreV2/state", Func: "VerifHarness_C25_MapRaces", Tier: "thorough", Configs: all,
+			Bounds: "every query group against every mutation group, with and without Commit, warm and cold caches"})
+	}
+
 	// ---------------------------------------------------------- C09 state modules / C08 map order
 	{
 		var cs, cs8 []map[string]int64
